@@ -122,6 +122,27 @@ func ruleConfigDecode(c *Ctx, rule string) {
 			}
 		}
 		c.ob(rule, fn, "unsorted / mergeable / overlapping ranges are an error", nil, okO, "the `First(i) <= Last(i-1)+1` edge reaches only error returns")
+		// the order test relates the START of a range to the END of the previous one
+		okFL := false
+		allInstrs(fn, func(in ssa.Instruction) {
+			cmp, ok := in.(*ssa.BinOp)
+			if !ok {
+				return
+			}
+			switch cmp.Op {
+			case token.LSS, token.LEQ, token.GTR, token.GEQ:
+			default:
+				return
+			}
+			has := func(v ssa.Value, f string) bool {
+				return dependsOn(v, func(x ssa.Value) bool { return isFieldLoadNamed(x, f) || pathEndsWith(x, f) })
+			}
+			if (has(cmp.X, "First") && !has(cmp.X, "Last") && has(cmp.Y, "Last") && !has(cmp.Y, "First")) ||
+				(has(cmp.Y, "First") && !has(cmp.Y, "Last") && has(cmp.X, "Last") && !has(cmp.X, "First")) {
+				okFL = true
+			}
+		})
+		c.ob(rule, fn, "the order test compares a range's First with the previous range's Last", nil, okFL, "one operand derives only from .First, the other only from .Last")
 	}
 	if fn := c.MustFn(rule, fipPkg, "(*FloatingIPPool).UnmarshalJSON"); fn != nil {
 		fc := calls(fn, fipPkg+".fipCheck")
